@@ -57,7 +57,7 @@ Definition body_of (l : list N) : list N := filter (fun c => negb (len_of c =? 0
 
 Inductive err :=
 | Ok | NoSuchKey | DeleteMarker | NoSuchBucket | PreconditionFailed | NotModified | InvalidRange
-| InvalidWriteOffset | InvalidStorageClass | InvalidSequence | MethodNotAllowed.
+| InvalidWriteOffset | InvalidStorageClass | InvalidSequence | MethodNotAllowed | BadDigest | ReadErr.
 
 (* conditions: If-Match / If-None-Match style *)
 Inductive cond := CNone | CStar | CTag (e : etag).
@@ -96,6 +96,7 @@ Definition inner0 : inner := mkInner [] [] 0 0 [(1, VEnabled)].
 
 Definition versioned (k : K) : bool := fst k =? 1.     (* used by Model/Repl.v only *)
 Definition bucket_ok (b : N) : bool := b <? 2.
+Definition bucket_missing (b : N) : bool := b =? 2.   (* a bucket that does not exist; only PutObject is really called on it *)
 Fixpoint vs_lookup (b : N) (l : list (N * vstate)) : vstate :=
   match l with [] => VUnset | (b', v) :: l' => if b' =? b then v else vs_lookup b l' end.
 Definition vs_of (s : inner) (b : N) : vstate := vs_lookup b (i_vers s).
@@ -194,6 +195,26 @@ Definition inner_get_v (s : inner) (k : K) (vr : vref) (im inm : cond) : gres :=
   match inner_head_v s k vr im inm with
   | RErr e => GErr e
   | RObj o => GObj o (body_of (o_parts o))
+  end.
+
+(* GetObject with one byte range (normalizeAndValidateRanges + createRangeReader): the object the call
+   addresses and the normalised (start, length), or InvalidRange *)
+Definition norm_range (size : N) (rs re : option N) : option (N * N) :=
+  match rs, re with
+  | None, None => Some (0, size)
+  | None, Some e => if e =? 0 then None
+                    else let suf := N.min e size in if suf =? 0 then None else Some (size - suf, suf)
+  | Some st, Some e => let e' := N.min e size in if e' <=? st then None else Some (st, e' - st)
+  | Some st, None => if size <=? st then None else Some (st, size - st)
+  end.
+Inductive rgres := GRange (o : obj) (start len : N) | GRErr (e : err).
+Definition inner_get_range (s : inner) (k : K) (vr : vref) (rs re : option N) : rgres :=
+  match (match vr with VRNone => inner_head s k CNone CNone | _ => inner_head_v s k vr CNone CNone end) with
+  | RErr e => GRErr e
+  | RObj o => match norm_range (size_of o) rs re with
+              | Some (st, ln) => GRange o st ln
+              | None => GRErr InvalidRange
+              end
   end.
 
 Definition cond_holds (c : cond) (cu : option obj) : bool :=
@@ -423,7 +444,9 @@ Definition with_inner (s : st) (i : inner) : st := mkSt i (s_head s) (s_body s) 
 
 Inductive op :=
 | OPut (k : K) (cid ct meta tags cls : N) (c : pcond)
+| OPutBad (k : K) (cid : N) (flt : N)       (* a put whose body is rejected: 2/3 checksum mismatch, 4 reader error *)
 | OAppend (k : K) (cid : N) (off : option N)
+| OAppendBad (k : K) (cid : N) (flt : N)
 | OCopy (src dst : K) (rm : bool) (ct meta : N) (rt : bool) (tags cls : N)
 | ODelete (k : K) (c : cond) (vr : vref)
 | ODeleteMany (b : N) (es : list (N * cond * vref))
@@ -439,6 +462,7 @@ Inductive op :=
 | OGet (k : K) (im inm : cond)
 | OHeadV (k : K) (vr : vref) (im inm : cond)
 | OGetV (k : K) (vr : vref) (im inm : cond)
+| OGetR (k : K) (vr : vref) (rs re : option N)    (* GetObject with one byte range [rs, re) / suffix *)
 | OGetOpen (k : K) (im inm : cond)
 | OGetFinish (h : N)
 | OGetAbort (h : N)
@@ -449,6 +473,7 @@ Inductive res :=
 | RDel (l : list (N * bool))
 | RHead (o : obj)
 | RGet (o : obj) (body : list N)
+| RRange (o : obj) (start len : N)
 | ROpen (o : obj)
 | RBody (body : list N)
 | RBlock | RNoHandle | RNoUpload | RBad.
@@ -503,6 +528,20 @@ Definition step (s : st) (o : op) : st * res :=
             (mkSt i head' body' (s_hs s), RStatus Ok)
         | _ => (invalidate s i k, RStatus e)
         end
+      else if bucket_missing (fst k) then
+        (* the call is made: the inner storage consumes the body, then reports the missing bucket;
+           the middleware streams the body into its cache and invalidates *)
+        (invalidate s (s_in s) k, RStatus NoSuchBucket)
+      else (s, RStatus NoSuchBucket)
+  | OPutBad k cid flt =>
+      (* rejected after (flt 2,3: checksum mismatch) or while (flt 4: reader error) the body was
+         consumed: the store is unchanged, the middleware removes both cache entries of the key *)
+      if bucket_ok (fst k) || bucket_missing (fst k) then
+        (invalidate s (s_in s) k, RStatus (if flt =? 4 then ReadErr else BadDigest))
+      else (s, RStatus NoSuchBucket)
+  | OAppendBad k cid flt =>
+      (* AppendObject does not touch the cache on error *)
+      if bucket_ok (fst k) then (s, RStatus (if flt =? 4 then ReadErr else BadDigest))
       else (s, RStatus NoSuchBucket)
   | OAppend k cid off =>
       if bucket_ok (fst k) then
@@ -581,6 +620,11 @@ Definition step (s : st) (o : op) : st * res :=
   | OGetV k vr im inm =>
       if bucket_ok (fst k) then
         (s, match inner_get_v (s_in s) k vr im inm with GObj o b => RGet o b | GErr e => RStatus e end)
+      else (s, RStatus NoSuchBucket)
+  | OGetR k vr rs re =>
+      (* ranged reads bypass the cache, with or without a version id *)
+      if bucket_ok (fst k) then
+        (s, match inner_get_range (s_in s) k vr rs re with GRange o st ln => RRange o st ln | GRErr e => RStatus e end)
       else (s, RStatus NoSuchBucket)
   | OGetOpen k im inm =>
       if bucket_ok (fst k) then
@@ -663,6 +707,14 @@ Definition parse_op (t : bytes) : op :=
             | Some [b; k; cid; ct; me; tg; cl], Some c => OPut (b, k) cid ct me tg cl c
             | _, _ => bad
             end
+        | [b; k; cid; ct; me; tg; cl; c; flt] =>
+            (* flt: 0 none, 1 a correct checksum is sent, 2/3 a wrong one, 4 the reader fails mid-body *)
+            match mapM parse_N [b; k; cid; ct; me; tg; cl; flt], parse_pcond c with
+            | Some [b; k; cid; ct; me; tg; cl; flt], Some c =>
+                if flt <=? 1 then OPut (b, k) cid ct me tg cl c
+                else if flt <=? 4 then OPutBad (b, k) cid flt else bad
+            | _, _ => bad
+            end
         | _ => bad
         end
       else if bytes_eqb tag B"A" then
@@ -670,6 +722,14 @@ Definition parse_op (t : bytes) : op :=
         | [b; k; cid; off] =>
             match mapM parse_N [b; k; cid], parse_off off with
             | Some [b; k; cid], Some off => OAppend (b, k) cid off
+            | _, _ => bad
+            end
+        | [b; k; cid; off; flt] =>
+            match mapM parse_N [b; k; cid; flt], parse_off off with
+            | Some [b; k; cid; flt], Some off =>
+                if flt <=? 1 then OAppend (b, k) cid off
+                else if (flt <=? 4) && match off with None => true | Some _ => false end then OAppendBad (b, k) cid flt
+                else bad
             | _, _ => bad
             end
         | _ => bad
@@ -768,6 +828,15 @@ Definition parse_op (t : bytes) : op :=
             end
         | _ => bad
         end
+      else if bytes_eqb tag B"GR" then
+        match a with
+        | [b; k; rs; re; v] =>
+            match mapM parse_N [b; k], parse_off rs, parse_off re, parse_vref v with
+            | Some [b; k], Some rs, Some re, Some vr => OGetR (b, k) vr rs re
+            | _, _, _, _ => bad
+            end
+        | _ => bad
+        end
       else if bytes_eqb tag B"GF" then
         match mapM parse_N a with Some [h] => OGetFinish h | _ => bad end
       else if bytes_eqb tag B"GX" then
@@ -783,6 +852,8 @@ Definition show_err (e : err) : bytes :=
   | InvalidWriteOffset => B"InvalidWriteOffset" | InvalidStorageClass => B"InvalidStorageClass"
   | InvalidSequence => B"Err(UploadWithInvalidSequenceNumber)"
   | MethodNotAllowed => B"MethodNotAllowed"
+  | BadDigest => B"BadDigest"
+  | ReadErr => B"ReadErr"
   end.
 Definition show_body (b : list N) : bytes :=
   match b with [] => B"-" | _ => join B"." (map show_N b) end.
@@ -804,6 +875,7 @@ Definition show_res (r : res) : bytes :=
   | RDel l => B"ok=" ++ map (fun kd : N * bool => if snd kd then "d"%byte else "p"%byte) l
   | RHead o => B"ok=" ++ show_obj o None
   | RGet o b => B"ok=" ++ show_obj o (Some b)
+  | RRange o st ln => B"ok=" ++ show_obj o None ++ B":r" ++ show_N st ++ B"." ++ show_N ln
   | ROpen o => B"ok=" ++ show_obj o None
   | RBody b => B"ok=" ++ show_body b
   | RBlock => B"BLOCK"
